@@ -1135,6 +1135,17 @@ class WorkflowConductor(object):
         if self.get_workflow_status() in statuses.COMPLETED_STATUSES:
             task_state_entry["term"] = True
 
+        # Also mark the task as a terminal task if the workflow is paused with nothing left to
+        # run, in which case the workflow is completed as soon as it is resumed.
+        if (
+            self.get_workflow_status() == statuses.PAUSED
+            and task_state_entry.get("status") in statuses.COMPLETED_STATUSES
+            and not self.workflow_state.has_active_tasks
+            and not self.workflow_state.has_staged_tasks
+            and not self.workflow_state.has_paused_tasks
+        ):
+            task_state_entry["term"] = True
+
         return task_state_entry
 
     def _evaluate_route(self, task_transition, prev_route):
